@@ -23,7 +23,7 @@ ALL_MODES = {'absent', 'zero', 'rank1', 'gen', 'diag', 'first', 'nil', 'idiag'}
 
 def base_constants(**kw):
     c = dict(MaxBlocks=2, MaxSize=1, MaxDim=4, QWinU1='<-QWin01', Mods='<-ModsU1', Kinds={'rect'}, Shapes='<-Shapes11',
-             QTs={0, 1}, QX={1}, FillModes={'absent', 'gen'}, NSeeds=1, Cplx={False}, Ops=set(ALL_OPS),
+             QTs={0, 1}, QX={1}, FillModes={'absent', 'gen'}, NSeeds=1, Dtypes={'float'}, Ops=set(ALL_OPS),
              QModes={'NN', 'LN', 'NR', 'LR', 'bad'}, IQs='<-IQBoth', Labs={False, True}, MaxOps=1,
              SampKind=0, SampLeg=0, SampPar=0, SampMode=0, SampOpt=0)
     c.update(kw)
@@ -47,15 +47,22 @@ def mc_configs(tier):
     out.append(('rect-ranks', base_constants(MaxSize=2, MaxBlocks=1 if quick else 2, MaxDim=2,
                                              Mods='<-ModsU1' if quick else '<-ModsU1Z2',
                                              FillModes={'absent', 'zero', 'rank1', 'gen', 'diag'}, NSeeds=1,
-                                             Cplx={True}, QTs={0, 1} if quick else {1}, QModes={'NN'},
+                                             Dtypes={'complex', 'int'}, QTs={0, 1} if quick else {1}, QModes={'NN'},
                                              IQs='<-IQPlus', Labs={False},
                                              Ops={'svd', 'qr', 'lq', 'pinv', 'polar', 'ortho', 'eig'}), 3 if quick else 2))
     # (3) square matrices with contractible legs: eigen-decompositions, expm, speigs
     out.append(('square', base_constants(Kinds={'herm', 'sq', 'nil', 'ipi2'}, MaxSize=2, MaxBlocks=2, MaxDim=3 if quick else 4,
                                          Mods='<-ModsU1' if quick else '<-ModsU1Z2',
                                          FillModes=set(ALL_MODES) - ({'first', 'rank1'} if quick else {'first'}),
-                                         NSeeds=1, Cplx={True} if quick else {False, True}, QTs={0},
+                                         NSeeds=1, Dtypes={'complex'} if quick else {'int', 'float', 'complex'}, QTs={0},
                                          Ops={'eigh', 'eig', 'eigvalsh', 'eigvals', 'expm', 'speigs'}), 4 if quick else 2))
+    # (4) orthogonal_columns on all matrices over legs with <= 3 blocks of size 1 (charges 0..2, every order): the completion
+    #     must have M - N columns, sector by sector, also when the first / middle / last left sector has no stored block
+    #     (3 blocks: thorough only, 40k states; in quick the <= 2-block instances of (1) cover first / last, and every
+    #     orthogonal_columns state of every dump is replayed regardless of the stride)
+    if not quick:
+        out.append(('ortho', base_constants(MaxBlocks=3, MaxSize=1, MaxDim=3, QWinU1='<-QWin012', QTs={0, 1},
+                                            FillModes={'gen'}, Ops={'ortho'}, Labs={True}), 1))
     return out
 
 
@@ -65,7 +72,7 @@ def gen_constants(tier):
     quick = tier == 'quick'
     return base_constants(MaxBlocks=3, MaxSize=2, MaxDim=6, QWinU1='<-QWinM11', Mods='<-ModsAll',
                           Kinds={'rect', 'herm', 'sq', 'nil', 'ipi2'}, Shapes='<-ShapesAll', QTs='<-QTsM11', QX={0, 1, 2},
-                          FillModes=set(ALL_MODES), NSeeds=7, Cplx={False, True}, MaxOps=1,
+                          FillModes=set(ALL_MODES), NSeeds=7, Dtypes={'int', 'float', 'complex'}, MaxOps=1,
                           SampKind=40 if quick else 80, SampLeg=2 if quick else 3, SampPar=2 if quick else 3, SampMode=1,
                           SampOpt=2 if quick else 4)
 
@@ -224,7 +231,7 @@ def check(ctx):
                     if '/\\ hist = <<>>' in txt:
                         continue
                     j += 1
-                    if (j + ctx.seed) % stride != 0:
+                    if (j + ctx.seed) % stride != 0 and 'op |-> "ortho"' not in txt:     # the rare ortho cases: all
                         continue
                     st = tlaval.parse_state(txt)
                     replay_behaviour(ctx, st, '%s#%d' % (name, j), npc, fallback_every=20 if gen else 50)
